@@ -67,6 +67,13 @@ def solveIndividual (xs : List α) (rows : List (List α)) (L : Nat)
     solveForK (V := α) xs col b.toInternal)
   transposeLanes rows.length cols
 
+/-- the `Extrapolate` mode `CubicSpline::build` selects -/
+def splineExtrapolate (ext : Bool) (bc : BoundaryCondition α) : Extrapolate :=
+  if !ext then Extrapolate.no
+  else match bc with
+    | .periodic => Extrapolate.periodic
+    | _ => Extrapolate.yes
+
 /-- `calc_coefficients` + `build` of the spline strategy -/
 def splineBuild (ext : Bool) (bc : BoundaryCondition α) (xs : List α) (data : NdArr α) :
     Except Fault (SplineStrat (List α)) := do
@@ -81,12 +88,7 @@ def splineBuild (ext : Bool) (bc : BoundaryCondition α) (xs : List α) (data : 
       if bshape ≠ 1 :: data.shape.drop 1 then throw (.builder .shapeError)
       else solveIndividual xs rows (data.lanes 1) bounds
   let ab := coeffs xs rows k
-  let extrapolate :=
-    if !ext then Extrapolate.no
-    else match bc with
-      | .periodic => Extrapolate.periodic
-      | _ => Extrapolate.yes
-  pure { a := ab.map (·.1), b := ab.map (·.2), extrapolate }
+  pure { a := ab.map (·.1), b := ab.map (·.2), extrapolate := splineExtrapolate ext bc }
 
 /-- `Interp1D { x, data, strategy }` -/
 structure Interp1 (α : Type) where
